@@ -1,37 +1,48 @@
 package wpool
 
+import "github.com/glebziz/fs_db/internal/verifhook"
+
 func (p *Pool) lazySend(e Event) {
+	verifhook.At("wpool.lazy.enter")
 	p.listM.Lock()
 	defer p.listM.Unlock()
 
 	p.el.PushBack(p.pool.Acquire().SetV(e))
+	verifhook.At("wpool.lazy.pushed")
 	p.lazyResend()
 }
 
 func (p *Pool) lazyResend() {
 	if !p.lazySendM.TryLock() {
+		verifhook.At("wpool.lazy.afterTryLockFail")
 		return
 	}
 
 	p.sendWg.Add(1)
 	go func() {
+		defer verifhook.At("wpool.flusher.exited")
 		defer func() {
+			verifhook.At("wpool.flusher.beforeExit")
 			p.lazySendM.Unlock()
 			p.sendWg.Done()
 		}()
 
 		for {
+			verifhook.At("wpool.flusher.loop")
 			p.listM.Lock()
 			n := p.el.PopBack()
 			p.listM.Unlock()
 			if n == nil {
+				verifhook.At("wpool.flusher.afterPopNil")
 				return
 			}
+			verifhook.At("wpool.flusher.afterPop")
 
 			select {
 			case <-p.ctx.Done():
 				return
 			case p.ch <- n.V():
+				verifhook.At("wpool.flusher.enqueued")
 				p.pool.Release(n)
 			}
 		}
